@@ -17,6 +17,7 @@ import (
 	"google.golang.org/protobuf/types/known/anypb"
 
 	meshconfig "istio.io/api/mesh/v1alpha1"
+	"istio.io/istio/pilot/pkg/model"
 	"istio.io/istio/pkg/config"
 	"istio.io/istio/pkg/config/schema/collections"
 	"istio.io/istio/zz_verif/engine"
@@ -29,6 +30,8 @@ type caseT struct {
 	// called after every switch of the map constant, so every map inside a spec is created under it.
 	Build func() (base, objs []config.Config)
 	Mesh  func(m *meshconfig.MeshConfig)
+	// Registry returns services and instances of the second (memory) registry; fixed part of the case.
+	Registry func() ([]*model.Service, []*model.ServiceInstance)
 }
 
 type replayT struct {
@@ -225,6 +228,8 @@ func compare(family string, ref, got *observation) []diffT {
 	return out
 }
 
+func all(n int) int { return 1<<n - 1 }
+
 func identity(n int) []int {
 	p := make([]int, n)
 	for i := range p {
@@ -283,7 +288,7 @@ func validateCases(t *testing.T, cases []*caseT) {
 func TestC17(t *testing.T) {
 	env := engine.GetEnv()
 	res := engine.NewResult("C17", "a-generate")
-	res.Rule = "one evaluation = one (case, insertion permutation, map constant) on a cold istio environment, generated 3 times for 3 proxies x CDS/EDS/LDS/RDS and compared byte-wise and order-wise with the case's reference combination; a case is non-trivial when at least two of its permuted objects each change the generated bytes when left out (so the tie between them is observable)"
+	res.Rule = "one evaluation = one (case, insertion permutation, map constant) on a cold istio environment, generated 3 times for 3 proxies x CDS/EDS/LDS/RDS and compared byte-wise and order-wise with the case's reference combination; a case is non-trivial when at least two of its permuted objects each change the generated bytes when left out, or when at least two of them, each alone on top of the fixed part, give outputs that differ from the output without any of them and from one another (so which of the tied objects wins is observable)"
 	defer res.Write(t, env)
 
 	cases := allCases()
@@ -302,11 +307,11 @@ func TestC17(t *testing.T) {
 		if c == nil {
 			t.Fatalf("unknown case %q", rp.Case)
 		}
-		ref, err := observe(c, rp.N, rp.Ref, -1)
+		ref, err := observe(c, rp.N, rp.Ref, all(rp.N))
 		if err != nil {
 			t.Fatal(err)
 		}
-		got, err := observe(c, rp.N, rp.Got, -1)
+		got, err := observe(c, rp.N, rp.Got, all(rp.N))
 		if err != nil {
 			t.Fatal(err)
 		}
@@ -358,7 +363,7 @@ func TestC17(t *testing.T) {
 			}
 			if ref == nil {
 				var err error
-				if ref, err = observe(c, n, refCombo, -1); err != nil {
+				if ref, err = observe(c, n, refCombo, all(n)); err != nil {
 					t.Fatalf("case %s reference: %v", c.Name, err)
 				}
 			}
@@ -367,31 +372,46 @@ func TestC17(t *testing.T) {
 				nres, nbytes := ref.resources()
 				res.Count("reference_resources", int64(nres))
 				res.Count("reference_bytes", int64(nbytes))
-				influence := 0
+				// (a) objects whose removal changes the bytes; (b) objects that, alone, change the bytes of the
+				// case without any permuted object, and how many different outputs these solo runs give.
+				influence, solo := 0, map[string]bool{}
+				none, err := observe(c, n, refCombo, 0)
+				if err != nil {
+					t.Fatalf("case %s without permuted objects: %v", c.Name, err)
+				}
 				for i := 0; i < n; i++ {
-					o, err := observe(c, n, refCombo, i)
+					o, err := observe(c, n, refCombo, all(n)&^(1<<i))
 					if err != nil {
 						t.Fatalf("case %s without object %d: %v", c.Name, i, err)
 					}
 					if o.digest() != ref.digest() {
 						influence++
-					} else {
-						res.Count("objects_without_influence", 1)
+					}
+					if o, err = observe(c, n, refCombo, 1<<i); err != nil {
+						t.Fatalf("case %s with only object %d: %v", c.Name, i, err)
+					}
+					if o.digest() != none.digest() {
+						solo[o.digest()] = true
+					}
+					if len(solo) == 0 && influence == 0 {
 						res.Outcome("no-influence:" + c.Name + ":" + objID(objs[i]))
 					}
 				}
-				res.Count("objects_with_influence", int64(influence))
-				if influence >= 2 {
+				res.Count("objects_whose_removal_changes_the_output", int64(influence))
+				res.Count("distinct_outputs_of_single_object_runs", int64(len(solo)))
+				if influence >= 2 || len(solo) >= 2 {
 					res.NontrivialCase(c.Name)
+				} else {
+					res.Outcome("trivial-case:" + c.Name)
 				}
-				res.Sample(map[string]any{"case": c.Name, "permuted_objects": insertionOrder(c, n, refCombo.Perm), "resources": nres, "bytes": nbytes, "objects_with_influence": influence})
+				res.Sample(map[string]any{"case": c.Name, "permuted_objects": insertionOrder(c, n, refCombo.Perm), "resources": nres, "bytes": nbytes, "objects_whose_removal_changes_the_output": influence, "distinct_outputs_of_single_object_runs": len(solo)})
 			}
 			for _, m := range mapAlphabet {
 				cb := comboT{Perm: engine.CopyInts(perm), Const: m}
 				got := ref
 				if !(pord == 0 && m == refCombo.Const) {
 					var err error
-					if got, err = observe(c, n, cb, -1); err != nil {
+					if got, err = observe(c, n, cb, all(n)); err != nil {
 						t.Fatalf("case %s %s: %v", c.Name, cb, err)
 					}
 				}
@@ -426,16 +446,16 @@ func TestC17(t *testing.T) {
 // differing combination reproduces in-process.
 func attribute(c *caseT, n int, ref *observation, refCombo, cb comboT, got *observation, key string) string {
 	var notes []string
-	if again, err := observe(c, n, cb, -1); err == nil && again.digest() != got.digest() {
+	if again, err := observe(c, n, cb, all(n)); err == nil && again.digest() != got.digest() {
 		notes = append(notes, "NOT STABLE: the same combination generated again in this process gave other bytes")
 	}
 	if cb.Const != refCombo.Const {
-		if o, err := observe(c, n, comboT{Perm: refCombo.Perm, Const: cb.Const}, -1); err == nil && hasKey(compare(c.Family, ref, o), key) {
+		if o, err := observe(c, n, comboT{Perm: refCombo.Perm, Const: cb.Const}, all(n)); err == nil && hasKey(compare(c.Family, ref, o), key) {
 			notes = append(notes, "the map constant alone (same insertion order) suffices")
 		}
 	}
 	if fmt.Sprint(cb.Perm) != fmt.Sprint(refCombo.Perm) {
-		if o, err := observe(c, n, comboT{Perm: cb.Perm, Const: refCombo.Const}, -1); err == nil && hasKey(compare(c.Family, ref, o), key) {
+		if o, err := observe(c, n, comboT{Perm: cb.Perm, Const: refCombo.Const}, all(n)); err == nil && hasKey(compare(c.Family, ref, o), key) {
 			notes = append(notes, "the insertion order alone (same map constant) suffices")
 		}
 	}
